@@ -552,6 +552,15 @@ func Cmp(op string, a, b Val) (res bool, known bool) {
 		if a.Sym != nil && b.Sym != nil && a.Sym.Key == b.Sym.Key {
 			return true, true
 		}
+		// a bit known to differ decides the comparison
+		if a.W == b.W && a.Bits != nil && b.Bits != nil {
+			for i := 0; i < a.W; i++ {
+				x, y := a.bit(i), b.bit(i)
+				if (x == BZero && y == BOne) || (x == BOne && y == BZero) {
+					return false, true
+				}
+			}
+		}
 	case "!=":
 		r, k := Cmp("==", a, b)
 		return !r, k
